@@ -232,7 +232,7 @@ func runQColl(c QCase) (msg string, nontrivial bool) {
 	f := &qfix{dir: bdb.TempDir("c20q"), c: c}
 	defer os.RemoveAll(f.dir)
 	if err := f.open(); err != nil {
-		return "VERIF-INCONCLUSIVE: " + err.Error(), false
+		return svc.Verdict(err), false
 	}
 	defer func() { f.stop() }()
 	models := map[string]T{}
@@ -392,7 +392,7 @@ func runQColl(c QCase) (msg string, nontrivial bool) {
 		for id, t := range models {
 			b, err := f.request("get.svc.m."+id, "")
 			if err != nil {
-				return "VERIF-INCONCLUSIVE: " + err.Error(), nontrivial
+				return svc.Verdict(err), nontrivial
 			}
 			var p struct {
 				Result *struct {
